@@ -37,6 +37,8 @@ def canon(v):
         return ('d', v.isoformat())
     if t is datetime.time:
         return ('t', v.isoformat())
+    if isinstance(v, StrSub):
+        return ('s', str(v))          # the harness's own str subclass stands for the text it holds
     if isinstance(v, tuple):
         return ('T', tuple(canon(x) for x in v))
     if isinstance(v, list):
@@ -301,3 +303,12 @@ def with_subtypes(table, every=2):
             new.append(c)
         out.append(type(row)(new) if isinstance(row, (list, tuple)) else new)
     return out
+
+
+def names_as_subtypes(v):
+    """the same field selection with every field *name* an instance of a str subclass (positions and other values untouched)"""
+    if type(v) is str:
+        return StrSub(v)
+    if type(v) in (list, tuple):
+        return type(v)(names_as_subtypes(x) for x in v)
+    return v
